@@ -202,7 +202,7 @@ theorem lowerAll_vspf1 : Spec.Spf.lowerAll strVspf1 = strVspf1 := by decide
 theorem spf_refines_rfc_partial_none (dns : Dns) (ss : Sess) (domain : List Byte) (hwf : ss.wf = true)
     (hdv : domainvalid domain = true) (hv : Spec.Spf.isValidDomain domain = true)
     (recs : List (List Byte)) (ht : dns.txt domain = .ok recs)
-    (hno : ∀ r ∈ recs.map sanitizeTxt, Spec.Spf.lowerAll (r.take 6) ≠ strVspf1) :
+    (hno : ∀ r ∈ txtView dns recs, Spec.Spf.lowerAll (r.take 6) ≠ strVspf1) :
     checkHost dns ss domain = .ok ((SPF_NONE, st0), [Query.txt domain]) ∧
       Spec.Spf.checkHost Spec.Spf.Dev.rfc dns ss domain = .none := by
   constructor
@@ -211,7 +211,7 @@ theorem spf_refines_rfc_partial_none (dns : Dns) (ss : Sess) (domain : List Byte
     rw [selectRecord_no_spf _ none (fun r hr h => hno r hr (by rw [h]; exact lowerAll_vspf1))]
   · rw [Spec.Spf.checkHost_rfc_top dns ss domain hv, ht]
     simp only []
-    have : (recs.map sanitizeTxt).filter (fun r => Spec.Spf.lowerAll (r.take 6) == [118, 61, 115, 112, 102, 49] && (r.length == 6 || r.getD 6 0 == 32)) = [] := by
+    have : (txtView dns recs).filter (fun r => Spec.Spf.lowerAll (r.take 6) == [118, 61, 115, 112, 102, 49] && (r.length == 6 || r.getD 6 0 == 32)) = [] := by
       rw [List.filter_eq_nil_iff]
       intro r hr
       have := hno r hr
@@ -238,7 +238,7 @@ by a blank or the end → SPF_PERMERROR, and permerror for the RFC. -/
 theorem spf_refines_rfc_partial_duplicate (dns : Dns) (ss : Sess) (domain : List Byte) (hwf : ss.wf = true)
     (hdv : domainvalid domain = true) (hv : Spec.Spf.isValidDomain domain = true)
     (recs : List (List Byte)) (ht : dns.txt domain = .ok recs) (r1 r2 : List Byte)
-    (hr : recs.map sanitizeTxt = [r1, r2])
+    (hr : txtView dns recs = [r1, r2])
     (h1 : r1.take 6 = strVspf1) (h1' : r1.length = 6 ∨ at0 r1 6 = 32)
     (h2 : r2.take 6 = strVspf1) (h2' : r2.length = 6 ∨ at0 r2 6 = 32) :
     checkHost dns ss domain = .ok ((SPF_PERMERROR, st0), [Query.txt domain]) ∧
@@ -291,34 +291,48 @@ theorem spf_refines_rfc_partial_all (dns : Dns) (ss : Sess) (domain : List Byte)
       checkHost dns ss domain = .ok ((SPF_PASS, { st0 with mech := some strAll }), [Query.txt domain]) ∧
       Spec.Spf.checkHost Spec.Spf.Dev.rfc dns ss domain = .pass) := by
   have key : ∀ (q : List Byte) (code : Int) (res : Spec.Spf.Res),
-      Spec.Spf.selectRfc Spec.Spf.Dev.rfc ([recAll q].map sanitizeTxt) = some (some (recAll q)) →
+      txtView dns [recAll q] = [recAll q] →
+      Spec.Spf.selectRfc Spec.Spf.Dev.rfc [recAll q] = some (some (recAll q)) →
       (∀ (recurse : List Byte → St → M (Int × St)),
         evalRecord dns ss recurse domain (recAll q) st0 = .ok ((code, { st0 with mech := some strAll }), [])) →
-      selectRecord ([recAll q].map sanitizeTxt) none = some (some (recAll q)) →
+      selectRecord [recAll q] none = some (some (recAll q)) →
       (dns.txt domain = .ok [recAll q] →
         (Spec.Spf.checkDomain ⟨Spec.Spf.Dev.rfc, dns, ss⟩ 24 domain 0 true).1 = res) →
       dns.txt domain = .ok [recAll q] →
       checkHost dns ss domain = .ok ((code, { st0 with mech := some strAll }), [Query.txt domain]) ∧
         Spec.Spf.checkHost Spec.Spf.Dev.rfc dns ss domain = res := by
-    intro q code res hsel hev hsel2 hspec ht
+    intro q code res hview hsel hev hsel2 hspec ht
     constructor
     · rw [checkHost_top dns ss domain hwf hdv, ht]
-      simp only [hsel2, hev]
+      simp only [hview, hsel2, hev]
       try rfl
     · rw [Spec.Spf.checkHost_rfc_top dns ss domain hv, ht]
-      simp only [hsel]
+      simp only [hview, hsel]
       exact hspec ht
+  -- the records are printable: both views of the connector leave them alone
+  have view : ∀ q : List Byte, (recAll q).map (fun b => if b == 0 then 63 else b) = recAll q →
+      sanitizeTxt (recAll q) = recAll q → txtView dns [recAll q] = [recAll q] := by
+    intro q h1 h2
+    unfold txtView
+    split
+    · simp only [List.map_cons, List.map_nil, h1]
+    · simp only [List.map_cons, List.map_nil, h2]
+  have v1 := view [45] (by decide) (by decide)
+  have v2 := view [126] (by decide) (by decide)
+  have v3 := view [63] (by decide) (by decide)
+  have v4 := view [43] (by decide) (by decide)
+  have v5 := view [] (by decide) (by decide)
   refine ⟨?_, ?_, ?_, ?_, ?_⟩
-  · exact key [45] SPF_FAIL .fail (by decide) (fun _ => rfl) (by decide)
-      (fun ht => by unfold Spec.Spf.checkDomain; simp only [ht, if_true]; rfl)
-  · exact key [126] SPF_SOFTFAIL .softfail (by decide) (fun _ => rfl) (by decide)
-      (fun ht => by unfold Spec.Spf.checkDomain; simp only [ht, if_true]; rfl)
-  · exact key [63] SPF_NEUTRAL .neutral (by decide) (fun _ => rfl) (by decide)
-      (fun ht => by unfold Spec.Spf.checkDomain; simp only [ht, if_true]; rfl)
-  · exact key [43] SPF_PASS .pass (by decide) (fun _ => rfl) (by decide)
-      (fun ht => by unfold Spec.Spf.checkDomain; simp only [ht, if_true]; rfl)
-  · exact key [] SPF_PASS .pass (by decide) (fun _ => rfl) (by decide)
-      (fun ht => by unfold Spec.Spf.checkDomain; simp only [ht, if_true]; rfl)
+  · exact key [45] SPF_FAIL .fail v1 (by decide) (fun _ => rfl) (by decide)
+      (fun ht => by unfold Spec.Spf.checkDomain; simp only [ht, if_true, v1]; rfl)
+  · exact key [126] SPF_SOFTFAIL .softfail v2 (by decide) (fun _ => rfl) (by decide)
+      (fun ht => by unfold Spec.Spf.checkDomain; simp only [ht, if_true, v2]; rfl)
+  · exact key [63] SPF_NEUTRAL .neutral v3 (by decide) (fun _ => rfl) (by decide)
+      (fun ht => by unfold Spec.Spf.checkDomain; simp only [ht, if_true, v3]; rfl)
+  · exact key [43] SPF_PASS .pass v4 (by decide) (fun _ => rfl) (by decide)
+      (fun ht => by unfold Spec.Spf.checkDomain; simp only [ht, if_true, v4]; rfl)
+  · exact key [] SPF_PASS .pass v5 (by decide) (fun _ => rfl) (by decide)
+      (fun ht => by unfold Spec.Spf.checkDomain; simp only [ht, if_true, v5]; rfl)
 
 /-! Non-vacuity: a session meeting `Sess.wf`, and a zone on which the model really evaluates
 (`d.ab` publishes `v=spf1 -all`): the result is `fail` by the mechanism `all`, one query. -/
